@@ -293,7 +293,7 @@ def main():
     try:
         for name, c in vlib.load_corpus(PROP):
             run_case_json(ck, c, scratch, use_model)
-        explore(ck, ck.budget(200, 3000), scratch, use_model)
+        explore(ck, ck.budget(300, 5000), scratch, use_model)
         if ck.broken() and not ck.violations:
             explore(ck, 1500, scratch, use_model=False)
     finally:
